@@ -270,12 +270,17 @@ def conventions(rep, tier, timeout):
            dict(comm, sec_forces=ext_panel_vec(F), widths=ext_span_scalar(w), chords=ext_nodes_scalar(c)),
            {"Cl": lambda o: o["Cl"][:nym]})
         # ViscousDrag
-        a, b, _, _ = pair(A + "viscous_drag", "ViscousDrag", over={"with_viscous": True}, with_viscous=True)
         ls, ln, tc = symarray("lengths_spanwise", (nym,)), symarray("lengths", (nyh,)), symarray("t_over_c", (nym,))
-        comm = {"re": [var("re")], "Mach_number": [var("M")], "S_ref": [var("S_ref")]}
-        go("viscous drag coefficient", a, b, dict(comm, widths=w, lengths_spanwise=ls, lengths=ln, t_over_c=tc),
-           dict(comm, widths=ext_span_scalar(w), lengths_spanwise=ext_span_scalar(ls), lengths=ext_nodes_scalar(ln), t_over_c=ext_span_scalar(tc)),
-           {"CDv": lambda o: o["CDv"]})
+        # every branch of the transition model: the dictionary's default, fully turbulent (0) and fully laminar (1)
+        for kl in (None, 0.0, 1.0):
+            over = {"with_viscous": True}
+            if kl is not None:
+                over["k_lam"] = kl
+            a, b, _, _ = pair(A + "viscous_drag", "ViscousDrag", over=over, with_viscous=True)
+            comm = {"re": [var("re")], "Mach_number": [var("M")], "S_ref": [var("S_ref")]}
+            go("viscous drag coefficient" + ("" if kl is None else " (k_lam = %g)" % kl), a, b, dict(comm, widths=w, lengths_spanwise=ls, lengths=ln, t_over_c=tc),
+               dict(comm, widths=ext_span_scalar(w), lengths_spanwise=ext_span_scalar(ls), lengths=ext_nodes_scalar(ln), t_over_c=ext_span_scalar(tc)),
+               {"CDv": lambda o: o["CDv"]})
         # WaveDrag
         a, b, _, _ = pair(A + "wave_drag", "WaveDrag", over={"with_wave": True}, with_wave=True)
         comm = {"Mach_number": [var("M")], "CL": [var("CL")]}
